@@ -321,6 +321,129 @@ ZoneCase(t) ==
               THEN [D_scan_name_empty_label |-> <<"abs", rawwire, 0>>] ELSE <<>>]
 
 ---------------------------------------------------------------------------
+(* mode "zscan": names around the label and name limits through the       *)
+(* zone-file scanner, written plainly and with escapes (the scanner has a *)
+(* fast path for plain labels and a copying path once an escape has been  *)
+(* seen), as owner and inside NS / MX record data.  A label is <<length,  *)
+(* form>>; contents are 'a' except for the escaped octet.                 *)
+
+ZForms == {"plain", "lead", "mid", "trail", "escdot"}
+ZPos(l, f) == CASE f = "lead" -> 1 [] f = "escdot" -> 1 [] f = "mid" -> (l + 1) \div 2
+                [] f = "trail" -> l [] OTHER -> 0
+ZOctets(lf) == [i \in 1..lf[1] |-> IF i = ZPos(lf[1], lf[2])
+                                   THEN (IF lf[2] = "escdot" THEN 46 ELSE 65) ELSE 97]
+ZText(lf) == Concat([i \in 1..lf[1] |-> IF i = ZPos(lf[1], lf[2])
+                                        THEN (IF lf[2] = "escdot" THEN <<92, 46>> ELSE <<92, 48, 54, 53>>)
+                                        ELSE <<97>>])
+RECURSIVE ZJoin(_)
+ZJoin(ls) == IF ls = <<>> THEN <<>>
+             ELSE IF Len(ls) = 1 THEN ZText(ls[1]) ELSE ZText(ls[1]) \o <<46>> \o ZJoin(Tail(ls))
+ZShapes ==
+  {<< <<l, f>> >> : l \in 62..65, f \in ZForms}
+  \cup {<< <<3, "escdot">>, <<l, f>> >> : l \in 62..65, f \in ZForms}       \* after an escaped label
+  \cup {<< <<l, f>>, <<3, "plain">> >> : l \in 62..65, f \in ZForms}
+  \cup {<< <<63, f1>>, <<63, "plain">>, <<63, "plain">>, <<k, f2>> >> :
+          f1 \in {"plain", "lead"}, k \in 59..62, f2 \in ZForms}
+  \cup {<< <<63, f1>>, <<63, "plain">>, <<63, "plain">>, <<k, f2>>, <<1, "plain">> >> :
+          f1 \in {"plain", "trail"}, k \in 57..60, f2 \in {"plain", "mid"}}
+\* where the name stands, and whether it is written with the final dot
+ZPlaces == {<<"owner", TRUE>>, <<"owner", FALSE>>, <<"ns", TRUE>>, <<"mx", TRUE>>, <<"mx", FALSE>>}
+ZScanSet == {<<sh, pl>> : sh \in ZShapes, pl \in ZPlaces}
+
+ZScanCase(v) ==
+  LET sh == v[1]
+      place == v[2][1]
+      dot == v[2][2]
+      labels == [i \in 1..Len(sh) |-> ZOctets(sh[i])]
+      full == IF dot THEN labels ELSE labels \o Origin
+      text == ZJoin(sh) \o (IF dot THEN <<46>> ELSE <<>>)
+  IN [in |-> [k |-> "zscan", place |-> place, text |-> text],
+      exp |-> IF ValidAbs(full) THEN <<"abs", ToWireAbs(full), 1>> ELSE <<"err", <<>>, 1>>,
+      dev |-> <<>>]
+\* the rendered text means the intended labels
+ZScanLaw ==
+  mode = "zscan" =>
+    LET sh == val[1]
+        r == ScanText(ZJoin(sh) \o <<46>>)
+    IN r.ok /\ r.abs /\ r.name = [i \in 1..Len(sh) |-> ZOctets(sh[i])]
+
+---------------------------------------------------------------------------
+(* mode "parsed": names read from compressed renderings (ParsedName) and  *)
+(* converted to the other representations.  Offsets are 0-based as in a   *)
+(* message; a pointer must point strictly backwards.                      *)
+
+Ptr(t) == <<192 + (t \div 256), t % 256>>
+Garbage == <<63, 255, 255>>
+RECURSIVE PCFrom(_, _, _, _, _)
+PCFrom(m, p, acc, used, fuel) ==
+  IF fuel = 0 \/ p >= Len(m) THEN Bad
+  ELSE LET b == m[p + 1] IN
+    IF b = 0 THEN (IF used + 1 > 255 THEN Bad ELSE [ok |-> TRUE, name |-> acc])
+    ELSE IF b < 64
+    THEN IF p + 1 + b > Len(m) \/ used + 1 + b + 1 > 255 THEN Bad
+         ELSE PCFrom(m, p + 1 + b, Append(acc, SubSeq(m, p + 2, p + 1 + b)), used + 1 + b, fuel)
+    ELSE IF b >= 192
+    THEN IF p + 2 > Len(m) THEN Bad
+         ELSE LET t == (b - 192) * 256 + m[p + 2]
+              IN IF t >= p THEN Bad ELSE PCFrom(m, t, acc, used, fuel - 1)
+    ELSE Bad
+ParseCompressed(m, p) == PCFrom(m, p, <<>>, 0, 128)
+\* where the parser stands afterwards: behind the root label or the first pointer
+RECURSIVE EndFrom(_, _)
+EndFrom(m, p) == IF m[p + 1] = 0 THEN p + 1
+                 ELSE IF m[p + 1] >= 192 THEN p + 2 ELSE EndFrom(m, p + 1 + m[p + 1])
+
+Renderings(n) ==
+  LET k == Len(n)
+      W(a, b) == ToWireRel(SubSeq(n, a, b))
+      base == ToWireAbs(n)
+      L == Len(base)
+      suf(j) == ToWireAbs(SubSeq(n, j + 1, k))
+  IN {[msg |-> base \o Garbage, pos |-> 0, kind |-> "flat"],
+      [msg |-> base \o Ptr(0) \o Garbage, pos |-> L, kind |-> "ptr"],
+      [msg |-> base \o Ptr(0) \o Ptr(L) \o Garbage, pos |-> L + 2, kind |-> "ptr-ptr"],
+      [msg |-> base \o Ptr(0) \o Ptr(L) \o Ptr(L + 2) \o Garbage, pos |-> L + 4, kind |-> "ptr-ptr-ptr"]}
+     \cup {[msg |-> suf(j) \o W(1, j) \o Ptr(0) \o Garbage, pos |-> Len(suf(j)), kind |-> "labels-ptr"]
+             : j \in 1..k}
+     \cup {[msg |-> suf(j) \o W(1, j) \o Ptr(0) \o Ptr(Len(suf(j))) \o Garbage,
+            pos |-> Len(suf(j)) + Len(W(1, j)) + 2, kind |-> "ptr-to-compressed"] : j \in 1..k}
+     \cup {[msg |-> suf(j) \o W(1, j) \o Ptr(0) \o Ptr(Len(suf(j)))
+                    \o Ptr(Len(suf(j)) + Len(W(1, j)) + 2) \o Garbage,
+            pos |-> Len(suf(j)) + Len(W(1, j)) + 4, kind |-> "ptr-ptr-to-compressed"] : j \in 1..k}
+     \cup UNION {UNION {{[msg |-> suf(j) \o W(i + 1, j) \o Ptr(0) \o W(1, i) \o Ptr(Len(suf(j))) \o Garbage,
+                   pos |-> Len(suf(j)) + Len(W(i + 1, j)) + 2, kind |-> "labels-ptr-labels-ptr"],
+                  [msg |-> suf(j) \o W(i + 1, j) \o Ptr(0) \o W(1, i) \o Ptr(Len(suf(j)))
+                           \o Ptr(Len(suf(j)) + Len(W(i + 1, j)) + 2) \o Garbage,
+                   pos |-> Len(suf(j)) + Len(W(i + 1, j)) + 2 + Len(W(1, i)) + 2,
+                   kind |-> "ptr-to-twice-compressed"]} : i \in 1..(j - 1)} : j \in 1..k}
+PNames == {<<>>, << <<97>> >>, << <<192, 5>>, <<97>> >>, << <<97>>, <<98, 99>>, <<100>> >>,
+           << <<119, 119, 119>>, <<0, 192>>, <<99, 111>>, <<117, 107>> >>,
+           LabelsOf(<<63, 63, 63, 61>>), LabelsOf(<<63, 63, 63, 62>>), LabelsOf(<<63, 63, 62, 1, 62>>)}
+ParsedSet == UNION {{<<n, r>> : r \in Renderings(n)} : n \in PNames}
+
+ParsedCase(v) ==
+  LET n == v[1]
+      r == v[2]
+      p == ParseCompressed(r.msg, r.pos)
+      e == [ok |-> TRUE, labels |-> ToWireAbs(p.name), compose |-> ToWireAbs(p.name),
+            flat |-> ToWireAbs(p.name), toname |-> ToWireAbs(p.name),
+            \* as_flat_slice is absent or the uncompressed octets
+            afs |-> "ok", eq |-> TRUE, cmp |-> TRUE,
+            \* Name::from_str of the parsed name's Display gives the name
+            disp |-> TRUE,
+            len |-> WireLenAbs(p.name), end |-> EndFrom(r.msg, r.pos)]
+  IN [in |-> [k |-> "parsed", msg |-> r.msg, pos |-> r.pos, kind |-> r.kind],
+      exp |-> IF p.ok THEN e ELSE [ok |-> FALSE],
+      \* ParsedName prints the root name as the empty string
+      dev |-> IF p.ok /\ p.name = <<>>
+              THEN [D_parsed_root_display |-> [e EXCEPT !.disp = FALSE]] ELSE <<>>]
+\* the renderings mean the name (or a too long name, which must be refused)
+ParsedLaw ==
+  mode = "parsed" =>
+    LET p == ParseCompressed(val[2].msg, val[2].pos)
+    IN IF ValidAbs(val[1]) THEN p.ok /\ p.name = val[1] ELSE ~p.ok
+
+---------------------------------------------------------------------------
 \* (the builder variables of NameBuilder.tla are not used here)
 NInit == /\ st = InitSt /\ last = NoCall
          /\ \/ mode = "name" /\ val \in NameSet
@@ -329,6 +452,8 @@ NInit == /\ st = InitSt /\ last = NoCall
             \/ mode = "shape" /\ val \in Shapes
             \/ mode = "chain" /\ val \in ChainShapes
             \/ mode = "zone" /\ val \in ZoneOwners
+            \/ mode = "zscan" /\ val \in ZScanSet
+            \/ mode = "parsed" /\ val \in ParsedSet
 NNext == UNCHANGED <<mode, val, st, last>>
 NSpec == NInit /\ [][NNext]_<<mode, val, st, last>>
 
@@ -340,4 +465,6 @@ Emit ==
                          /\ PrintT("CASE " \o ToJson(ShapeWireCase(val)))
     [] mode = "chain" -> PrintT("CASE " \o ToJson(ShapeChainCase(val)))
     [] mode = "zone"  -> PrintT("CASE " \o ToJson(ZoneCase(val)))
+    [] mode = "zscan" -> PrintT("CASE " \o ToJson(ZScanCase(val)))
+    [] mode = "parsed" -> PrintT("CASE " \o ToJson(ParsedCase(val)))
 =============================================================================
